@@ -1,6 +1,7 @@
 import Oracle.J
 import Eru.Store.Render
 import Eru.Store.Spec
+import Eru.Store.Status
 /-
 Oracle for C13 / C23 / C25: replays an operation sequence on the reference store model, one
 state per backend, and compares — after every operation — the implementation's result and raw
@@ -117,6 +118,12 @@ def resMatch (s : St) (op : Op) (model : Res) (impl : Json) : Bool :=
     else broken && (jstr (jget impl "err") == "notfound" || jstr (jget impl "err") == "bad-name")
   | _ => resJson model == impl
 
+/-- one status key: specification, etcd protocol model, Redis protocol model (Eru/Store/Status.lean) -/
+structure KeyTrack where
+  spec : Status.Spec
+  etcd : Status.Etcd
+  redis : Status.Redis
+
 structure BState where
   name : String
   fl : Flavour
@@ -125,8 +132,8 @@ structure BState where
   agree : Bool := true
   specs : List String := []
   firstBad : Option Json := none
-  -- C25
-  track : List (String × (Nat × Nat)) := []
+  -- C25: per status key the specification state and the backend's protocol model
+  track : List (String × KeyTrack) := []
   tnow : Nat := 0
   -- C13
   caps : List (String × Cap) := []
@@ -142,45 +149,92 @@ def statusKeyOf (op : Op) : Option (String × String × Int) :=   -- (status key
   | .setNodeStatus n _ ttl => some ((Key.nst n).render, (Key.node n).render, ttl)
   | _ => none
 
-def untrack (t : List (String × (Nat × Nat))) (k : String) := t.filter (·.1 != k)
+def trackGet (b : BState) (k : String) : KeyTrack :=
+  match b.track.find? (·.1 == k) with
+  | some (_, t) => t
+  | none => { spec := { now := b.tnow }, etcd := { now := b.tnow }, redis := {} }
+
+def trackSet (b : BState) (k : String) (t : KeyTrack) : BState :=
+  { b with track := (k, t) :: b.track.filter (·.1 != k) }
+
+/-- apply one history event to one status key; returns the protocol model's accept decision -/
+def KeyTrack.step (t : KeyTrack) (isEtcd checkEntity : Bool) (ev : Status.Ev) : KeyTrack × Bool :=
+  let (e', okE) := t.etcd.step ev
+  let (r', okR) := t.redis.step checkEntity ev
+  ({ spec := t.spec.step ev, etcd := e', redis := r' }, if isEtcd then okE else okR)
+
+def KeyTrack.protoVisible (t : KeyTrack) (isEtcd : Bool) : Bool :=
+  if isEtcd then t.etcd.visible.isSome else t.redis.visible.isSome
+
+def specRemainingOf (s : Status.Spec) : Nat :=
+  match s.last with
+  | some (t, ttl, _) => if ttl == 0 then 0 else t + ttl - s.now
+  | none => 0
+
+def hashStr (s : String) : Nat := s.foldl (fun h c => (h * 131 + c.toNat) % 1000003) 7
 
 def c25Step (b : BState) (op : Op) (implOk : Bool) (prev new : Dump) : BState :=
-  let b := match op with | .tick d => { b with tnow := b.tnow + d } | _ => b
-  let (b, tags) : BState × List String :=
+  let isEtcd := b.name == "etcd"
+  let b : BState := match op with
+    | .tick d => { b with tnow := b.tnow + d,
+                          track := b.track.map fun (k, t) => (k, (t.step isEtcd true (.tick d)).1) }
+    | _ => b
+  let (b, tags, protoBad) : BState × List String × Bool :=
     match statusKeyOf op with
     | some (sk, ek, ttl) =>
       let isNode := match op with | .setNodeStatus .. => true | _ => false
+      let val := match op with
+        | .setWorkloadStatus r _ => (if r.running then 2 else 0) + (if r.healthy then 1 else 0)
+        | .setNodeStatus _ p _ => hashStr p
+        | _ => 0
       if isNode && ttl == 0 then
-        (b, if implOk then [s!"C25:node-ttl0-accepted:{b.name}"] else [])
+        (b, if implOk then [s!"C25:node-ttl0-accepted:{b.name}"] else [], false)
       else if ttl < 0 then
-        if isNode then ({ b with track := untrack b.track sk }, if implOk then [] else [s!"C25:negative-ttl-delete-failed:{b.name}"])
-        else (b, [])
+        if isNode then
+          (trackSet b sk ((trackGet b sk).step isEtcd true .remove).1,
+           if implOk then [] else [s!"C25:negative-ttl-delete-failed:{b.name}"], false)
+        else (b, [], false)
       else
         let ex := hasKey prev ek
-        let want := accepted ttl.toNat ex
+        let ev := Status.Ev.report val ttl.toNat ex
+        let t := trackGet b sk
+        let want := t.spec.accepts ev
+        let (t', proto) := t.step isEtcd (!isNode) ev
+        -- the history follows what the implementation actually did
+        let t' := if implOk == want then t'
+                  else { t' with spec := if implOk then { t.spec with last := some (t.spec.now, ttl.toNat, val) } else t.spec }
         let tags :=
           if implOk && !want then
             [if b.name == "redis" && isNode then "C25:redis-nodestatus-no-entity" else s!"C25:accepted-without-entity:{b.name}"]
           else if !implOk && want then [s!"C25:rejected-live-entity:{b.name}"] else []
-        (if implOk then { b with track := (sk, (b.tnow, ttl.toNat)) :: untrack b.track sk } else b, tags)
+        (trackSet b sk t', tags, proto != implOk)
     | none =>
       match op with
       | .removeWorkload w =>
         match parseWorkloadName w.name with
-        | .ok (a, e, _) => (if implOk then { b with track := untrack b.track (Key.wst a e w.node w.id).render } else b, [])
-        | .error _ => (b, [])
-      | _ => (b, [])
+        | .ok (a, e, _) =>
+          let sk := (Key.wst a e w.node w.id).render
+          (if implOk then trackSet b sk ((trackGet b sk).step isEtcd true .remove).1 else b, [], false)
+        | .error _ => (b, [], false)
+      | _ => (b, [], false)
   -- visibility of every status key known to the history or present in the store
   let keys := dedup (b.track.map (·.1) ++ (new.filter fun e => e.1.startsWith "/status").map (·.1))
-  let vis := keys.flatMap fun k =>
-    let tr : Track := b.track.lookup k
-    let spec := specVisible b.tnow tr
-    match new.find? (·.1 == k) with
-    | some (_, _, t) =>
-      if !spec then [s!"C25:visible-after-end:{b.name}"]
-      else if t != (specRemaining b.tnow tr : Int) then [s!"C25:remaining-ttl:{b.name}"] else []
-    | none => if spec then [s!"C25:vanished-early:{b.name}"] else []
-  { b with specs := b.specs ++ tags ++ vis }
+  let res := keys.map fun k =>
+    let t := trackGet b k
+    let spec := t.spec.visible.isSome
+    let here := new.find? (·.1 == k)
+    let tags := match here with
+      | some (_, _, r) =>
+        if !spec then [s!"C25:visible-after-end:{b.name}"]
+        else if r != (specRemainingOf t.spec : Int) then [s!"C25:remaining-ttl:{b.name}"] else []
+      | none => if spec then [s!"C25:vanished-early:{b.name}"] else []
+    (tags, t.protoVisible isEtcd != here.isSome)
+  let bad := protoBad || res.any (·.2)
+  let fb := if bad && b.firstBad.isNone then
+      some (Json.mkObj [("backend", Json.str b.name), ("what", Json.str "status protocol model (Eru.Store.Status) disagrees with the implementation"),
+                        ("now", ji b.tnow)])
+    else b.firstBad
+  { b with specs := b.specs ++ tags ++ res.flatMap (·.1), agree := b.agree && !bad, firstBad := fb }
 
 /-! #### C13 on the implementation's outputs -/
 def parts (k : String) : List String := k.splitOn "/"
